@@ -76,7 +76,7 @@ def main():
             open(os.path.join(dest, "notes.md"), "w").write(notes)
             files = [l[6:].strip() for l in open(patch) if l.startswith("+++ b/")]
             json.dump({
-                "property": prop[:3], "id": sid, "wave": {"b": 2, "c": 3, "d": 4, "e": 5, "f": 6}.get(prop[3:], 1), "files": files,
+                "property": prop[:3], "id": sid, "wave": {"b": 2, "c": 3, "d": 4, "e": 5, "f": 6, "g": 7}.get(prop[3:], 1), "files": files,
                 "needs_to_manifest": notes.strip().split("\n")[0:12],
                 "confirmed": {"demo_on_clean_tree_exit": rc0, "baseline_suite_with_patch": msg, "demo_with_patch_exit": rc1,
                               "how": "fresh scratch worktree of /repo HEAD; demo; git apply patch.diff; pytest baseline (-n 8); demo; worktree removed",
